@@ -213,6 +213,15 @@ Theorem c08_description_edit_node_rule : forall d1 d2 n, node_type n = 0 ->
 Proof. exact input_becomes_produced_rule. Qed.
 Print Assumptions c08_description_edit_node_rule.
 
+(* the same for a VIRTUAL node that gains (or loses) a producer: c08_description_edit_node above holds for every node
+   name (the producer names are part of a virtual node's signature too); its rule changes from the virtual-input
+   rule to the produced-node rule, which requests the producer *)
+Theorem c08_description_edit_virtual_node_rule : forall d1 d2 n, node_type n = 3 ->
+  producers d1 n = [] -> producers d2 n <> [] ->
+  lookup_rule d1 (KN n) = RVirtualInput /\ lookup_rule d2 (KN n) = RProduced n (producers d2 n).
+Proof. exact virtual_becomes_produced_rule. Qed.
+Print Assumptions c08_description_edit_virtual_node_rule.
+
 (* a removed command resolves to the missing-command rule, whose stored result is never valid *)
 Theorem c08_description_edit_removed : forall d w name v,
   find_cmd (d_cmds d) name = None -> lookup_rule d (KC name) = RMissingCommand /\ rule_valid d w (KC name) v = Invalid.
@@ -277,3 +286,8 @@ Example c08_example_mkdir_symlink_tamper :
   cmd_valid ex_d5 (bs_world ex_state5) ex_cln (val_of ex_state5 (KC [67;46;108])) = Valid /\
   cmd_valid ex_d5 (del (bs_world ex_state5) ex_lnk) ex_cln (val_of ex_state5 (KC [67;46;108])) = Invalid.
 Proof. vm_compute. repeat split; reflexivity. Qed.
+
+Example c08_example_virtual_gains_producer :
+  node_type ex_all = 3 /\ producers ex_d2 ex_all = [] /\ producers ex_d3 ex_all = [ex_call] /\
+  node_sig_tokens (node_def ex_d2 ex_all) <> node_sig_tokens (node_def ex_d3 ex_all).
+Proof. vm_compute. repeat split; try reflexivity. discriminate. Qed.
